@@ -25,6 +25,7 @@ RULE = ('cases: (a) spectrum of a record through Signal/AccSignal.gen_fa_spectru
         'out^2 = m2^2 / (m0 m4) on the implementation\'s own moments, Re(out) >= 0, nan exactly when m0 m4 = 0 (near-zero m0 m4 skipped as fragile); '
         'np.trapz is bound to np.trapezoid (the name NumPy renamed it to) only around these calls when the installed NumPy has no np.trapz; the unpatched call is '
         'observed first and the number of AttributeErrors is recorded in the evidence (not a violation: outside the property statement); '
+        '(a\') records stored as int16/int32/int64 ndarrays through Signal/AccSignal.fa_spectrum and gen_fa_spectrum(p2_plus) (the model is given the same numbers); '
         'non-trivial = record not identically zero and at least 2 samples')
 TRUSTED = [
     'Coq 8.16.1 kernel + vm_compute; Coq Interval tactic (proofs checked by the kernel at Qed)',
@@ -84,18 +85,26 @@ def dyadic(x):
 
 
 # ------------------------------------------------------------------ implementation calls
-def impl_spectrum(cls, which, x, dt, nopt, p2opt, npad, via_property=False):
-    """returns (complex spectrum, freqs) through the public entry point `which`"""
+def impl_spectrum(cls, which, x, dt, nopt, p2opt, npad, via_property=False, store=None):
+    """returns (complex spectrum, freqs) through the public entry point `which`; store = name of an integer numpy dtype: the
+    record is handed over as an ndarray of that dtype (raw counts; the values must be integers inside its range)"""
     import eqsig
     from eqsig.fns import frequency as fq
     src = np.array(x, dtype=float)
+    if store is not None:
+        src = src.astype(np.dtype(store))
+        assert np.array_equal(src.astype(float), np.array(x, dtype=float))
     sig = getattr(eqsig, cls)(src, dt)
     if which == 0:
         if via_property and nopt is None and p2opt is None:
             fa0, fr0 = np.array(sig.fa_spectrum), np.array(sig.fa_freqs)
             # the caller re-uses the array it built the object from: the object's record, and the spectrum of that record, stay
-            src *= -2.0
-            src += 3.0
+            if store is None:
+                src *= -2.0
+                src += 3.0
+            else:
+                src //= 2
+                src += 3
             fa1, fr1, v1 = np.array(sig.fa_spectrum), np.array(sig.fa_freqs), np.array(sig.values, dtype=float)
             if not np.array_equal(v1, np.array(x, dtype=float)):
                 raise RuntimeError('RecordChangedUnderObject: writing into the array the object was constructed from changed its record '
@@ -287,7 +296,8 @@ def replay_call(rp):
     if 'fas2' in f and 're' in a:
         return impl_fas2values(a['re'], a['im'], a['dt'])
     if 'values' in a and 'which' in a:
-        return impl_spectrum(a.get('cls', 'Signal'), a['which'], a['values'], a['dt'], a.get('n'), a.get('p2_plus'), a.get('n_pad', True))
+        return impl_spectrum(a.get('cls', 'Signal'), a['which'], a['values'], a['dt'], a.get('n'), a.get('p2_plus'), a.get('n_pad', True),
+                             a.get('via_property', False), a.get('stored_dtype'))
     return None
 
 
@@ -482,6 +492,29 @@ def run(rep, rng, tier):
             gl = pick(rng, spectrum_goals(cls, which, x, dt, nopt, p2opt, npad, fa, 'c%d' % k), 300 if quick else 1100, N)
             ivl_terms[0] -= len(gl) * N
             add_goals(gl, c)
+
+    # ---- records stored with an integer dtype (raw digitiser counts): Signal/AccSignal.fa_spectrum and gen_fa_spectrum(p2_plus=...)
+    # give dt x DFT of the same numbers (the model gets them as rationals)
+    for k in range(9 if quick else 60):
+        store = ['int16', 'int32', 'int64'][k % 3]
+        cls = 'AccSignal' if (k // 3) % 2 else 'Signal'
+        npts = small_npts(rng, 40)
+        x, _ = gens.int_record(rng, npts, amp=rng.choice([50, 2000, 30000]))
+        x = np.clip(np.round(x), -32768, 32767)
+        if not np.any(x != 0):
+            x[rng.randrange(npts)] = 7.0
+        dt = rng.choice([0.01, 0.005, 0.02, 0.1, 0.25, 0.5, 1.0, 2.0])
+        via_prop = (k % 2 == 0)
+        nopt, p2opt, npad = None, (None if via_prop else rng.randint(0, 3)), True
+        r = guarded(impl_spectrum, cls, 0, x, dt, nopt, p2opt, npad, via_prop, store)
+        args = describe_args(cls, 0, x, dt, nopt, p2opt, npad)
+        args.update(stored_dtype=store, via_property=via_prop)
+        site = '%s.%s[%s record]' % (cls, 'fa_spectrum' if via_prop else 'gen_fa_spectrum(p2_plus)', store)
+        if isinstance(r, ImplError):
+            bad(site, args, r)
+            continue
+        c = spec_case(cls, 0, x, dt, nopt, p2opt, npad, r[0], r[1], False)
+        cases.append(Case(c.coq, {'function': site, 'args': args, 'impl': c.replay['impl']}, site, nontrivial=c.nontrivial, klass='%s/%s' % (site, 'property' if via_prop else 'p2_plus')))
 
     # ---- objects with a history: the spectrum / grid read later must belong to the current record
     n_hist = 24 if quick else 250
